@@ -173,29 +173,24 @@ theorem deflation_E (A : CRS K) (hA : A.WF) (Z : Array (Vec K)) (k j : Nat) (hk 
   mkE_spec A hA Z k j hk hj
 
 /-- **after `project` the residual is orthogonal to every deflation vector**, `Zᵀ (b - A x) = 0`, for every thread
-count, every right-hand side and every incoming iterate — given that the stored matrix is (right-)inverse to `E`
-(the exactness of `detail::inverse` is the subject of C16). -/
-theorem deflation_projects (nt : Nat) (hnt : 0 < nt) (A : CRS K) (hA : A.WF) (n : Nat) (hn : A.nrows = n)
-    (hc : A.ncols = n) (Z : Array (Vec K)) (hZ : ∀ j, j < Z.size → (Z.getD j #[]).size = n) (hnv : 0 < Z.size)
-    (st : State K) (hst : init A Z = some st)
-    (hinv : ∀ k j, k < Z.size → j < Z.size →
-      ∑ i ∈ range Z.size, (mkE A Z).getD (k * Z.size + i) 0 * st.Einv.getD (i * Z.size + j) 0 = if k = j then 1 else 0)
+count, every right-hand side and every incoming iterate, whenever `E = Zᵀ A Z` is non-singular (the exactness of
+`detail::inverse` with partial pivoting is C16's `inverse_spec`, used here). -/
+theorem deflation_projects [IsStrictOrderedRing K] (nt : Nat) (hnt : 0 < nt) (A : CRS K) (hA : A.WF) (n : Nat)
+    (hn : A.nrows = n) (hc : A.ncols = n) (Z : Array (Vec K)) (hZ : ∀ j, j < Z.size → (Z.getD j #[]).size = n)
+    (hnv : 0 < Z.size) (st : State K) (hst : init A Z = some st) (hdet : (matOf Z.size (mkE A Z)).det ≠ 0)
     (b x : Vec K) (hb : b.size = n) (hx : x.size = n) (k : Nat) (hk : k < Z.size) :
     ∑ l ∈ range n, (Z.getD k #[]).getD l 0 * (residual b A (project nt st b x)).getD l 0 = 0 := by
-  unfold init at hst
-  cases hd : denseInverse Z.size (mkE A Z) with
-  | none => rw [hd] at hst; cases hst
-  | some Ei =>
-    rw [hd] at hst
-    simp only [Option.map_some, Option.some.injEq] at hst
-    subst hst
-    exact project_orth nt hnt A hA n hn hc Z hZ hnv Ei hinv b x hb hx k hk
+  obtain ⟨hstA, hstZ, hinv⟩ := init_right_inv A Z st hst hdet
+  obtain ⟨sA, sZ, sE⟩ := st
+  simp only at hstA hstZ hinv
+  subst hstA hstZ
+  exact project_orth nt hnt sA hA n hn hc sZ hZ hnv sE hinv b x hb hx k hk
 
 -- non-vacuity: 1-D Laplacian on two points, one constant deflation vector (`E = (2)`, stored inverse `(1/2)`)
 example : ∑ l ∈ range 2, (C18Ex.Zd.getD 0 #[]).getD l 0 *
     (residual #[1, 0] C18Ex.Ad (project 3 C18Ex.std #[1, 0] #[5, 7])).getD l 0 = 0 :=
   deflation_projects 3 (by decide) C18Ex.Ad C18Ex.Ad_ok.1 2 C18Ex.Ad_ok.2.1 C18Ex.Ad_ok.2.2 C18Ex.Zd C18Ex.Zd_ok
-    (by decide) C18Ex.std C18Ex.init_d C18Ex.hinv_d #[1, 0] #[5, 7] rfl rfl 0 (by decide)
+    (by decide) C18Ex.std C18Ex.init_d C18Ex.det_d #[1, 0] #[5, 7] rfl rfl 0 (by decide)
 
 /-- **with an exact preconditioner the deflated solver (with `preonly`) returns the solution of the original system** -/
 theorem deflation_exact_precond (nt : Nat) (hnt : 0 < nt) (A : CRS K) (hA : A.WF) (n : Nat) (hn : A.nrows = n)
@@ -203,22 +198,31 @@ theorem deflation_exact_precond (nt : Nat) (hnt : 0 < nt) (A : CRS K) (hA : A.WF
     (st : State K) (hst : init A Z = some st) (Pf : Vec K → Vec K) (b x0 : Vec K) (hb : b.size = n)
     (hP : (Pf b).size = n ∧ spmv 1 A (Pf b) 0 (vclear n) = b) :
     spmv 1 A (solvePreonly nt st Pf b x0) 0 (vclear n) = b := by
-  unfold init at hst
-  cases hd : denseInverse Z.size (mkE A Z) with
-  | none => rw [hd] at hst; cases hst
-  | some Ei =>
-    rw [hd] at hst
-    simp only [Option.map_some, Option.some.injEq] at hst
-    subst hst
-    unfold solvePreonly Deflation.apply
-    rw [project_fixed nt hnt A n hn Z hZ hnv Ei b (Pf b) hP.1]
-    · exact hP.2
-    · intro l hl
-      have hl' : l < A.nrows := by omega
-      have h1 := C07.residual_spec b A (Pf b) hA l hl'
-      have h2 := C07.spmv_spec 1 0 A (Pf b) (vclear n) hA l hl'
-      rw [hP.2] at h2
-      rw [h1, h2]; ring
+  have hAZ : st.A = A ∧ st.Z = Z := by
+    unfold init at hst
+    simp only at hst
+    split at hst
+    · cases hst
+    · simp only [Option.some.injEq] at hst
+      subst hst; exact ⟨rfl, rfl⟩
+  obtain ⟨sA, sZ, sE⟩ := st
+  simp only at hAZ
+  obtain ⟨h1, h2⟩ := hAZ
+  subst h1 h2
+  unfold solvePreonly Deflation.apply
+  rw [project_fixed nt hnt sA n hn sZ hZ hnv sE b (Pf b) hP.1]
+  · exact hP.2
+  · intro l hl
+    have hl' : l < sA.nrows := by omega
+    have h1 := C07.residual_spec b sA (Pf b) hA l hl'
+    have h2 := C07.spmv_spec 1 0 sA (Pf b) (vclear n) hA l hl'
+    rw [hP.2] at h2
+    rw [h1, h2]; ring
+
+-- non-vacuity: the same Laplacian with the exact preconditioner `A⁻¹ = [2 1; 1 2] / 3`
+example : spmv 1 C18Ex.Ad (solvePreonly 1 C18Ex.std C18Ex.Pd #[3, 0] #[9, 9]) 0 (vclear 2) = #[3, 0] :=
+  deflation_exact_precond 1 (by decide) C18Ex.Ad C18Ex.Ad_ok.1 2 C18Ex.Ad_ok.2.1 C18Ex.Ad_ok.2.2 C18Ex.Zd C18Ex.Zd_ok
+    (by decide) C18Ex.std C18Ex.init_d C18Ex.Pd #[3, 0] #[9, 9] rfl C18Ex.Pd_ok
 
 end deflation
 
